@@ -70,6 +70,7 @@ pub fn replay(replay: &Value) -> Result<Vec<Violation>, String> {
         "C13" => c13::replay(replay)?,
         "C14" => c14::replay(replay)?,
         "C15" => c15::replay(replay["input"].as_str().ok_or("input")?),
+        "crash" => return Err("this replay records a crash of the whole exploration process; re-run the check to reproduce".into()),
         other => return Err(format!("unknown replay kind `{other}`")),
     })
 }
@@ -77,6 +78,7 @@ pub fn replay(replay: &Value) -> Result<Vec<Violation>, String> {
 /// worker subprocess entry (crash isolation): `mc worker <name>`
 pub fn worker(name: &str) -> Option<()> {
     match name {
+        "C07" => crate::engine::worker_loop(c07::worker_check),
         "C12" => crate::engine::worker_loop(c12::worker_check),
         "C13" => crate::engine::worker_loop(c13::worker_check),
         "C14" => crate::engine::worker_loop(c14::worker_check),
